@@ -70,6 +70,11 @@ func (lm Matrix) Latency(a, b hotstuff.ID) time.Duration {
 	return lm.lm[a-1][b-1]
 }
 
+// Contains returns true if the latency matrix is enabled and id is one of its nodes (1..n).
+func (lm Matrix) Contains(id hotstuff.ID) bool {
+	return lm.enabled && id >= 1 && int(id) <= len(lm.lm)
+}
+
 // Location returns the location of the node with the given ID.
 // If the ID is 0 or the latency matrix is not enabled, the function will return the default location.
 // If the ID is out of range, the function will panic.
